@@ -276,7 +276,7 @@ def main():
     # ---- binding A (2): reproducibility pairs
     pj = []
     meta = []
-    confs = base if ck.tier == "thorough" else base[:4]
+    confs = (base if ck.tier == "thorough" else base[:4]) + [dict(clustering=False, support=0.5, n_particles=16, ess_ratio=3.0)]   # zero-likelihood draws replaced at random
     for i, c in enumerate(confs):
         rs = 0 if i % 2 == 0 else 5   # 0 is a legal seed too
         a = dict(conf=dict(c, random_state=rs), seed=11 + i, n_total=24)
@@ -285,6 +285,11 @@ def main():
         k = len(pj)
         pj += [a, b, d]
         meta += [(k, k + 1, "same"), (k, k + 2, "differ")]
+    # legal seeds near the 32-bit boundaries must not alias small ones
+    for lo_, hi_ in ((0, 2 ** 31 - 1), (1, 2 ** 31), (1, 2 ** 32 - 1), (5, 2 ** 31 + 4)):
+        k = len(pj)
+        pj += [dict(conf=dict(clustering=False, random_state=lo_), seed=77, n_total=24), dict(conf=dict(clustering=False, random_state=hi_), seed=77, n_total=24)]
+        meta.append((k, k + 1, "differ"))
     R = pairs.run_many(pj)
     P = [pairs.project_pair(R[a], R[b], kind=kind, exact=True) for a, b, kind in meta]
     for rr in R:
